@@ -249,6 +249,79 @@ def cards_part(run, bulk):
             run.sample({"card kinds": "".join(kinds), "fmt": fmt, "lines": nlines, "reader view": "".join(trimmed)})
 
 
+def include_part(run, bulk):
+    """growth: INCLUDE-following state machine (specs/BulkInclude.tla) - every small file tree is written to disk and read back"""
+    import shutil
+    cfg = "MC_BulkInclude_q.cfg" if run.tier == "quick" else "MC_BulkInclude_t.cfg"
+    res = tlc.run("BulkInclude", cfg, timeout=1500)
+    run.add_tlc(cfg, res, "DeliversExpansion, PrefixSoFar, DepthBound, Terminates on every file tree (3 files, INCLUDE by name / path / symbol, split quotes)")
+    if res.violation:
+        run.violation("TLC: %s on the BulkInclude model" % res.violation, {"tlc": res.error_text()}, {"where": "model"})
+        return
+    trees = res.tagged("TREE")
+    if run.tier == "quick":
+        trees = trees[::2]
+    root = tempfile.mkdtemp(prefix="c12inc_")
+    try:
+        os.makedirs(os.path.join(root, "sub"))
+        paths = {1: os.path.join(root, "main.bdf"), 2: os.path.join(root, "sub", "f2.bdf"), 3: os.path.join(root, "sub", "f3.bdf")}
+        names = {2: "f2.bdf", 3: "f3.bdf"}
+
+        def render(f, items):
+            lines = []
+            for i, it in enumerate(items, 1):
+                cid = 100 * f + i
+                if it[0] == "card":
+                    lines.append("CARDX,%d,7" % cid if i % 2 else "CARDX   %8d       7" % cid)
+                elif it[0] == "long":
+                    lines.append("CARDX   %8d" % cid + "".join("%8d" % v for v in range(1, 8)) + "+")
+                    lines.append("+       %8d%8d" % (8, 9))
+                elif it[0] == "other":
+                    lines.append("OTHER,%d" % cid)
+                    if i % 2:
+                        lines.append("$ a comment")
+                else:
+                    t, form, split = it[1], it[2], it[3]
+                    p = {"name": names[t], "path": "sub/" + names[t], "symbol": "sym:" + names[t]}[form]
+                    if split:
+                        k = max(1, len(p) // 2)
+                        lines.append("INCLUDE '%s" % p[:k])
+                        lines.append("%s'" % p[k:])
+                    else:
+                        lines.append("include '%s'" % p if i % 2 else "INCLUDE '%s'" % p)
+            return "\n".join(lines) + ("\n" if lines else "")
+
+        for c1, c2, c3, want in trees:
+            for f, items in ((1, c1), (2, c2), (3, c3)):
+                with open(paths[f], "w") as fh:
+                    fh.write(render(f, items))
+            run.case(("include", json.dumps([c1, c2])), part="INCLUDE trees")
+            tags = {"kind": "include", "forms": sorted({it[2] for it in c1 + c2 if it[0] == "inc"}), "split": any(it[0] == "inc" and it[3] for it in c1 + c2)}
+            try:
+                got = bulk.rdcards(paths[1], "cardx", return_var="list", include_symbols={"SYM": os.path.join(root, "sub")})
+                own = bulk.rdcards(paths[1], "cardx", return_var="list", follow_includes=False)
+            except Exception as ex:
+                run.violation("rdcards raised %r on an INCLUDE tree" % ex, {"main": c1, "f2": c2, "expected": want}, tags)
+                continue
+            ids = [int(c[0]) for c in (got or [])]
+            if ids != list(want):
+                run.violation("rdcards over INCLUDE files delivered cards %s, expected (depth-first, each INCLUDE expanded in place) %s" % (ids, list(want)),
+                              {"main": c1, "f2": c2}, tags)
+            want_own = [100 + i for i, it in enumerate(c1, 1) if it[0] in ("card", "long")]
+            if [int(c[0]) for c in (own or [])] != want_own:
+                run.violation("rdcards(follow_includes=False) delivered %s, expected the file's own cards %s" % ([int(c[0]) for c in (own or [])], want_own),
+                              {"main": c1}, tags)
+            for c in (got or []):
+                k = int(c[0])
+                it = {1: c1, 2: c2, 3: c3}[k // 100][k % 100 - 1]
+                if it[0] == "long" and [int(v) for v in c[1:10]] != list(range(1, 10)):
+                    run.violation("a card with a continuation line lost / gained fields next to an INCLUDE: %s" % (c,), {"main": c1, "f2": c2}, tags)
+                    break
+            run.trace_validated()
+    finally:
+        shutil.rmtree(root, ignore_errors=True)
+
+
 def body(run: Run, replay):
     import warnings
     warnings.simplefilter("ignore")
@@ -263,6 +336,7 @@ def body(run: Run, replay):
                        "accuracy is checked in exact rational arithmetic (fractions.Fraction) on the decimal string"]
     numbers_part(run, bulk)
     cards_part(run, bulk)
+    include_part(run, bulk)
 
 
 if __name__ == "__main__":
